@@ -189,6 +189,7 @@ func usesObj(info *types.Info, n ast.Node, obj types.Object) bool {
 }
 
 type c12ctx struct {
+	pfx  string // rule prefix ("C12"; C19 reuses the scan for its re-run clause)
 	r    *Report
 	s    *S1
 	p    *packages.Package
@@ -196,29 +197,11 @@ type c12ctx struct {
 	key  string
 }
 
-func runC12(r *Report) {
-	r.Explanation = "Static source enumeration over the generator (S1): every range-over-map, map-iterating library call, goroutine/select/channel operation, environment/time/randomness call and pointer-formatting call in the functions of packages goag, cmd/goag, generator, specification that are reachable from Generator.Generate*/main (VTA call graph plus template-invoked methods) is an obligation; each must match a neutralising idiom (collect-then-sort, commutative keyed build, error-only sink, allow-listed constant switch). Holds for all specs and all runs; no code is executed."
-	r.Rule("C12/map-range", "a range over a map reachable from Generate must be order-insensitive: I1 collect-then-sort, I2 commutative keyed build, I3 error-only sink")
-	r.Rule("C12/map-iter-call", "the result of maps.Keys/Values must be sorted before any other use")
-	r.Rule("C12/env", "no call to time/rand/env/host/runtime-introspection sources reachable from Generate (allow-list: one named symbol with reason)")
-	r.Rule("C12/concurrency", "no go statement, select or channel operation reachable from Generate")
-	r.Rule("C12/ptr-format", "no %p / pointer-valued %v operand formatted into generated text")
-	r.Rule("C12/truncate", "output files are opened with O_TRUNC: bytes on disk do not depend on a previous, longer file")
-	r.Rule("C12/fs-reads", "the generation path reads no file-system state besides spec file, config file and the --dir listing; goimports gets no file name")
-	r.Rule("C12/global-state", "no package-level variable (or container held in one) is written outside package initialisers on the generation path")
-	r.Rule("C12/witness", "the rule engine flags the positive witnesses in testdata (anti-vacuity for zero-count rules)")
-	r.Assumptions = append(r.Assumptions,
-		"kin-openapi, yaml, x/tools/imports, text/template are deterministic given deterministic inputs (text/template ranges over maps in sorted key order by contract)",
-		"error message text is not generated output (I3)",
-		"reachability: VTA call graph from Generator methods and main, plus every method of generator/specification types whose name occurs in a template and every function value registered in the template FuncMap")
-
-	s, err := LoadS1(true)
-	if err != nil {
-		r.Break("load S1: %v", err)
-		return
-	}
-	nFuncs, nReach, nRange, nSkipped := 0, 0, 0, 0
-	var skipped []string
+// scanDeterminism enumerates the order/environment/concurrency obligations of
+// every generator function reachable from Generate*/main and of the package
+// initialisers, reporting them under <pfx>/….
+func scanDeterminism(r *Report, s *S1, pfx string) (nFuncs, nReach, nRange, nInit int, skipped []string) {
+	nSkipped := 0
 	paths := []string{modPath, modPath + "/cmd/goag", modPath + "/generator", modPath + "/specification"}
 	for _, path := range paths {
 		p := s.Pkgs[path]
@@ -231,7 +214,7 @@ func runC12(r *Report) {
 				nFuncs++
 				fn := s.FuncOfDecl(p, fd)
 				reach := fn != nil && s.ReachAll[fn]
-				c := &c12ctx{r: r, s: s, p: p, decl: fd, key: funcKey(p, fd)}
+				c := &c12ctx{pfx: pfx, r: r, s: s, p: p, decl: fd, key: funcKey(p, fd)}
 				if !reach {
 					// still enumerate map ranges for the evidence, but they are not obligations
 					ast.Inspect(fd.Body, func(n ast.Node) bool {
@@ -251,7 +234,7 @@ func runC12(r *Report) {
 		}
 	}
 	// package-level variable initialisers always run: their calls are on every path
-	nInit := 0
+	nInit = 0
 	for _, path := range paths {
 		p := s.Pkgs[path]
 		for _, file := range p.Syntax {
@@ -267,7 +250,7 @@ func runC12(r *Report) {
 						if i < len(vs.Names) {
 							name = vs.Names[i].Name
 						}
-						c := &c12ctx{r: r, s: s, p: p, key: shortPkg(p.PkgPath) + ".<var " + name + ">"}
+						c := &c12ctx{pfx: pfx, r: r, s: s, p: p, key: shortPkg(p.PkgPath) + ".<var " + name + ">"}
 						ast.Inspect(v, func(n ast.Node) bool {
 							if _, isLit := n.(*ast.FuncLit); isLit {
 								return false // judged when reachable
@@ -283,6 +266,35 @@ func runC12(r *Report) {
 			}
 		}
 	}
+	_ = nSkipped
+	return
+}
+
+func runC12(r *Report) {
+	r.Explanation = "Static source enumeration over the generator (S1): every range-over-map, map-iterating library call, goroutine/select/channel operation, environment/time/randomness call and pointer-formatting call in the functions of packages goag, cmd/goag, generator, specification that are reachable from Generator.Generate*/main (VTA call graph plus template-invoked methods) is an obligation; each must match a neutralising idiom (collect-then-sort, commutative keyed build, error-only sink, allow-listed constant switch). Holds for all specs and all runs; no code is executed."
+	r.Rule("C12/map-range", "a range over a map reachable from Generate must be order-insensitive: I1 collect-then-sort, I2 commutative keyed build, I3 error-only sink")
+	r.Rule("C12/map-iter-call", "the result of maps.Keys/Values must be sorted before any other use")
+	r.Rule("C12/env", "no call to time/rand/env/host/runtime-introspection sources reachable from Generate (allow-list: one named symbol with reason)")
+	r.Rule("C12/concurrency", "no go statement, select or channel operation reachable from Generate")
+	r.Rule("C12/ptr-format", "no %p / pointer-valued %v operand formatted into generated text")
+	r.Rule("C12/truncate", "output files are opened with O_TRUNC: bytes on disk do not depend on a previous, longer file")
+	r.Rule("C12/fs-reads", "the generation path reads no file-system state besides spec file, config file and the --dir listing; goimports gets no file name")
+	r.Rule("C12/global-state", "no package-level variable (or container held in one) is written outside package initialisers on the generation path")
+	r.Rule("C12/loop-carried", "the driver's per-spec loop (--dir) carries no variable from one iteration to the next")
+	r.Rule("C12/witness", "the rule engine flags the positive witnesses in testdata (anti-vacuity for zero-count rules)")
+	r.Assumptions = append(r.Assumptions,
+		"kin-openapi, yaml, x/tools/imports, text/template are deterministic given deterministic inputs (text/template ranges over maps in sorted key order by contract)",
+		"error message text is not generated output (I3)",
+		"reachability: VTA call graph from Generator methods and main, plus every method of generator/specification types whose name occurs in a template and every function value registered in the template FuncMap")
+
+	s, err := LoadS1(true)
+	if err != nil {
+		r.Break("load S1: %v", err)
+		return
+	}
+	nFuncs, nReach, nRange, nInit, skipped := scanDeterminism(r, s, "C12")
+	nSkipped := len(skipped)
+	_ = nSkipped
 	r.Analysed["calls_in_package_initialisers"] = nInit
 	sort.Strings(skipped)
 	r.Analysed["packages"] = []string{"goag", "cmd/goag", "generator", "specification"}
@@ -300,6 +312,7 @@ func runC12(r *Report) {
 	ruleTruncate(r, s, "C12/truncate")
 	ruleFSReads(r, s, "C12/fs-reads")
 	ruleGlobalState(r, s, "C12/global-state")
+	ruleLoopCarried(r, s, "C12/loop-carried")
 	c12Witness(r)
 }
 
@@ -335,17 +348,17 @@ func (c *c12ctx) scanFunc() (nRange int) {
 				nRange++
 				c.mapRange(n, following(n))
 			case *types.Chan:
-				c.r.Violation("C12/concurrency", c.key+":range over channel "+types.ExprString(n.X), c.s.pos(n.Pos()), "channel receive order is a schedule")
+				c.r.Violation(c.pfx+"/concurrency", c.key+":range over channel "+types.ExprString(n.X), c.s.pos(n.Pos()), "channel receive order is a schedule")
 			}
 		case *ast.GoStmt:
-			c.r.Violation("C12/concurrency", c.key+":go statement", c.s.pos(n.Pos()), "goroutine started on the generation path: completion order is a schedule")
+			c.r.Violation(c.pfx+"/concurrency", c.key+":go statement", c.s.pos(n.Pos()), "goroutine started on the generation path: completion order is a schedule")
 		case *ast.SelectStmt:
-			c.r.Violation("C12/concurrency", c.key+":select", c.s.pos(n.Pos()), "select chooses among ready cases pseudo-randomly")
+			c.r.Violation(c.pfx+"/concurrency", c.key+":select", c.s.pos(n.Pos()), "select chooses among ready cases pseudo-randomly")
 		case *ast.SendStmt:
-			c.r.Violation("C12/concurrency", c.key+":channel send", c.s.pos(n.Pos()), "channel operation on the generation path")
+			c.r.Violation(c.pfx+"/concurrency", c.key+":channel send", c.s.pos(n.Pos()), "channel operation on the generation path")
 		case *ast.UnaryExpr:
 			if n.Op == token.ARROW {
-				c.r.Violation("C12/concurrency", c.key+":channel receive", c.s.pos(n.Pos()), "channel operation on the generation path")
+				c.r.Violation(c.pfx+"/concurrency", c.key+":channel receive", c.s.pos(n.Pos()), "channel operation on the generation path")
 			}
 		case *ast.CallExpr:
 			c.call(n, following)
@@ -367,7 +380,7 @@ func (c *c12ctx) call(call *ast.CallExpr, following func(ast.Stmt) []ast.Stmt) {
 		// find the statement: must be `x := maps.Keys(m)` directly followed by sort of x
 		var asg *ast.AssignStmt
 		if c.decl == nil {
-			c.r.Violation("C12/map-iter-call", key, c.s.pos(call.Pos()), "map-order helper called in a package-level initialiser")
+			c.r.Violation(c.pfx+"/map-iter-call", key, c.s.pos(call.Pos()), "map-order helper called in a package-level initialiser")
 			return
 		}
 		ast.Inspect(c.decl.Body, func(n ast.Node) bool {
@@ -377,14 +390,14 @@ func (c *c12ctx) call(call *ast.CallExpr, following func(ast.Stmt) []ast.Stmt) {
 			return asg == nil
 		})
 		if asg == nil {
-			c.r.Violation("C12/map-iter-call", key, c.s.pos(call.Pos()), "result of a map-order helper is used without being bound to a variable that is sorted first")
+			c.r.Violation(c.pfx+"/map-iter-call", key, c.s.pos(call.Pos()), "result of a map-order helper is used without being bound to a variable that is sorted first")
 			return
 		}
 		obj := identObj(info, asg.Lhs[0])
 		if obj != nil && firstUseIsSort(info, following(asg), obj) {
-			c.r.OK("C12/map-iter-call", key, c.s.pos(call.Pos()), "I1: sorted before first use")
+			c.r.OK(c.pfx+"/map-iter-call", key, c.s.pos(call.Pos()), "I1: sorted before first use")
 		} else {
-			c.r.Violation("C12/map-iter-call", key, c.s.pos(call.Pos()), "keys/values taken in map order and not sorted before their first use")
+			c.r.Violation(c.pfx+"/map-iter-call", key, c.s.pos(call.Pos()), "keys/values taken in map order and not sorted before their first use")
 		}
 		return
 	}
@@ -414,9 +427,9 @@ func (c *c12ctx) call(call *ast.CallExpr, following func(ast.Stmt) []ast.Stmt) {
 				}
 				key := fmt.Sprintf("%s:%s.%s(%s)", c.key, sp, fn, arg)
 				if why, ok := c12EnvAllow[key]; ok {
-					c.r.OK("C12/env", key, c.s.pos(call.Pos()), "allow-listed: "+why)
+					c.r.OK(c.pfx+"/env", key, c.s.pos(call.Pos()), "allow-listed: "+why)
 				} else {
-					c.r.Violation("C12/env", key, c.s.pos(call.Pos()), "environment/time/randomness source reachable from Generate: output would depend on more than spec, config and flags")
+					c.r.Violation(c.pfx+"/env", key, c.s.pos(call.Pos()), "environment/time/randomness source reachable from Generate: output would depend on more than spec, config and flags")
 				}
 			}
 		}
@@ -438,7 +451,7 @@ func (c *c12ctx) call(call *ast.CallExpr, following func(ast.Stmt) []ast.Stmt) {
 			start = idx + 1
 		}
 		if strings.Contains(format, "%p") {
-			c.r.Violation("C12/ptr-format", c.key+":"+name+" %p", c.s.pos(call.Pos()), "address formatted into text")
+			c.r.Violation(c.pfx+"/ptr-format", c.key+":"+name+" %p", c.s.pos(call.Pos()), "address formatted into text")
 		}
 		if call.Ellipsis.IsValid() {
 			return
@@ -449,7 +462,7 @@ func (c *c12ctx) call(call *ast.CallExpr, following func(ast.Stmt) []ast.Stmt) {
 				continue
 			}
 			if c12AddressLike(t) {
-				c.r.Violation("C12/ptr-format", c.key+":"+name+" operand "+types.ExprString(a), c.s.pos(a.Pos()), "operand of type "+t.String()+" prints as an address / in map order")
+				c.r.Violation(c.pfx+"/ptr-format", c.key+":"+name+" operand "+types.ExprString(a), c.s.pos(a.Pos()), "operand of type "+t.String()+" prints as an address / in map order")
 			}
 		}
 	}
@@ -523,14 +536,14 @@ func (c *c12ctx) mapRange(rs *ast.RangeStmt, after []ast.Stmt) {
 	if len(rs.Body.List) == 1 {
 		if sl := appendOnly(info, rs.Body.List[0], kObj, vObj); sl != nil {
 			if firstUseIsSort(info, after, sl) {
-				c.r.OK("C12/map-range", key, pos, "I1 collect-then-sort: body only appends the key/value to "+sl.Name()+", which is sorted before any other use")
+				c.r.OK(c.pfx+"/map-range", key, pos, "I1 collect-then-sort: body only appends the key/value to "+sl.Name()+", which is sorted before any other use")
 				return
 			}
 			if c.errorOnlySink(sl, rs) {
-				c.r.OK("C12/map-range", key, pos, "I3 error-only sink: "+sl.Name()+" flows only into the error result")
+				c.r.OK(c.pfx+"/map-range", key, pos, "I3 error-only sink: "+sl.Name()+" flows only into the error result")
 				return
 			}
-			c.r.Violation("C12/map-range", key, pos, "keys/values are collected into "+sl.Name()+" in map iteration order and used without sorting")
+			c.r.Violation(c.pfx+"/map-range", key, pos, "keys/values are collected into "+sl.Name()+" in map iteration order and used without sorting")
 			return
 		}
 	}
@@ -543,10 +556,10 @@ func (c *c12ctx) mapRange(rs *ast.RangeStmt, after []ast.Stmt) {
 		locals[vObj] = true
 	}
 	if why := c.commutativeBody(rs.Body.List, kObj, locals); why == "" {
-		c.r.OK("C12/map-range", key, pos, "I2 commutative build: body only stores at the range key / deletes / assigns body-locals")
+		c.r.OK(c.pfx+"/map-range", key, pos, "I2 commutative build: body only stores at the range key / deletes / assigns body-locals")
 		return
 	} else {
-		c.r.Violation("C12/map-range", key, pos, "order-sensitive loop body over a map: "+why)
+		c.r.Violation(c.pfx+"/map-range", key, pos, "order-sensitive loop body over a map: "+why)
 	}
 }
 
@@ -813,7 +826,7 @@ func c12Witness(r *Report) {
 	for _, f := range p.Syntax {
 		for _, d := range f.Decls {
 			if fd, ok := d.(*ast.FuncDecl); ok && fd.Body != nil {
-				c := &c12ctx{r: scratch, s: ws, p: p, decl: fd, key: "witness." + fd.Name.Name}
+				c := &c12ctx{pfx: "C12", r: scratch, s: ws, p: p, decl: fd, key: "witness." + fd.Name.Name}
 				c.scanFunc()
 			}
 		}
